@@ -46,6 +46,8 @@ type AScn struct {
 	Dest  int            `json:"dest"`
 	Beh   map[string]int `json:"beh"`   // behaviour per distinct address string
 	Bound int            `json:"bound"`
+	// DestHop: the last hop carries the destination mark (the destination answered), as in every run that reached its target
+	DestHop bool `json:"dest_hop,omitempty"`
 }
 
 func runA(sc *AScn, prefix []int, sig []uint32) (*vsched.Exec, *result.Results, *result.Results, map[string]int) {
@@ -70,6 +72,10 @@ func runA(sc *AScn, prefix []int, sig []uint32) (*vsched.Exec, *result.Results, 
 		run := result.TracerouteRun{Destination: result.TracerouteDestination{IPAddress: addrKinds[sc.Dest].ip(), Port: 80}}
 		for i, k := range sc.Hops {
 			h := &result.TracerouteHop{TTL: i + 1, IPAddress: addrKinds[k].ip(), RTT: float64(i) + 0.5}
+			h.Reachable = len(h.IPAddress) > 0
+			if sc.DestHop && i == len(sc.Hops)-1 {
+				h.IsDest = true
+			}
 			run.Hops = append(run.Hops, h)
 		}
 		return &result.Results{Protocol: "udp", Traceroute: result.Traceroute{Runs: []result.TracerouteRun{run}}}
@@ -173,6 +179,15 @@ func genA(tier string) []AScn {
 				}
 				s.Bound = 0
 				out = append(out, s)
+				// the same document with the last hop marked as the destination's answer (same address, possibly in the other byte form)
+				if nh > 0 {
+					last, dst := addrKinds[s.Hops[nh-1]].ip(), addrKinds[s.Dest].ip()
+					if len(last) > 0 && len(dst) > 0 && last.String() == dst.String() {
+						s2 := s
+						s2.DestHop = true
+						out = append(out, s2)
+					}
+				}
 			}
 		}
 	}
